@@ -392,8 +392,11 @@ impl GraphInline {
 }
 
 fn left_pad_and_prefix(text: &str) -> String {
+    // the marker goes on the first line that has content: an item without text of its own
+    // starts with its first child block ("- ```")
+    let start = text.lines().position(|line| !line.is_empty()).unwrap_or(0);
     let mut result = String::new();
-    for (n, line) in text.lines().enumerate() {
+    for (n, line) in text.lines().skip(start).enumerate() {
         if line.is_empty() {
             result.push_str("\n");
         } else if n == 0 {
@@ -408,8 +411,9 @@ fn left_pad_and_prefix(text: &str) -> String {
 
 fn left_pad_and_prefix_num(text: &str, num: usize) -> String {
     let prefix = format!("{}.{}", num, if num > 9 { "" } else { " " });
+    let start = text.lines().position(|line| !line.is_empty()).unwrap_or(0);
     let mut result = String::new();
-    for (n, line) in text.lines().enumerate() {
+    for (n, line) in text.lines().skip(start).enumerate() {
         if line.is_empty() {
             result.push_str("\n");
         } else if n == 0 {
